@@ -91,7 +91,15 @@ def run(ctx, chk):
             chk.ob("C07.chance-exit",
                    f"{K}: undefined_error exit is the failed-draw exit with value 0 and no other flag",
                    ok, f"flags {sig}; condition {f_show(G)[:300]}", d.fi.module.path)
-        # the failed-draw exit is taken *whenever* network gates hold and the draw fails
+        # the failed-draw exit is taken *whenever* the preconditions hold and the draw fails (no
+        # further condition - e.g. on the value of prob itself - may keep a failed draw from failing
+        # the action: "probability-0 actions never succeed")
+        if K != "NoOp" and len(und) == 1:
+            pre = [GATES[g] for g in REQUIRED[K] if not g.startswith("D")]
+            prem = f_and(pre + [A(DRAW_ATOM)] + ([f_not(comp_t)] if K == "Exploit" else []))
+            chk.ob("C07.chance-exit", f"{K}: with every precondition met, a failed draw always ends in "
+                   "the undefined_error exit", bool(f_implies(prem, und[0][0])),
+                   f"the chance exit is taken under {f_show(und[0][0])[:300]}", d.fi.module.path)
         # ---- (c)/(e) independence of the draw when a gate fails
         atoms = sorted(set().union(*[f_atoms(G) for G, _ in outs]) | {DRAW_ATOM})
         if len(atoms) > 16:
